@@ -58,7 +58,7 @@ func everyPathFromPasses(from ssa.Instruction, barrier func(ssa.Instruction) boo
 }
 
 func checkC16(c *core.Ctx, l *core.Ledger) {
-	l.Explanation = "Static clauses of C16: (HANDSHAKE-GATE) the only construction of a plugin handle is in NewTransportHandle and is dominated by a successful handshake call, the name equality and the API-version equality; the only construction of a service-generator client is in transportHandle.ServiceGenerator and is dominated by the advertised-feature hit and the running test; the plugin's Generate RPC is invoked only through it — hence no generate request without a successful handshake advertising the feature; (CLOSE) transportHandle.Close runs once (atomic swap), sends Goodbye and still closes the transport when Goodbye fails; process.Client.Close closes both pipes and waits for the process on every path; a failed handshake closes the transport; a partially failed fan-out closes the handles opened so far; the CLI registers the deferred Close right after the handles are opened and before any later return; (FRAMES) frame Reader/Writer work under their mutex and move whole frames with ReadFull/CopyN/full-buffer writes; Serve closes reader and writer on every exit; Stop only flips the flag and closes the reader; (LIBRARY) plugin.Main always serves Plugin and serves ServiceGenerator iff it advertises the feature. NOT decided: behaviour of real processes, exit messages, that exactly one goodbye reaches a plugin."
+	l.Explanation = "Static clauses of C16: (HANDSHAKE-GATE) the only construction of a plugin handle is in NewTransportHandle and is dominated by a successful handshake call, the name equality and the API-version equality; the only construction of a service-generator client is in transportHandle.ServiceGenerator and is dominated by the advertised-feature hit and the running test; the plugin's Generate RPC is invoked only through it — hence no generate request without a successful handshake advertising the feature; (CLOSE) transportHandle.Close runs once (atomic swap), sends Goodbye and still closes the transport when Goodbye fails; process.Client.Close closes both pipes and waits for the process on every path; a failed handshake closes the transport; a partially failed fan-out closes the handles opened so far; the CLI registers the deferred Close right after the handles are opened and before any later return; (FRAMES) frame Reader/Writer work under their mutex and move whole frames with ReadFull/CopyN/full-buffer writes; Serve closes reader and writer on every exit; Stop only flips the flag and closes the reader; (LIBRARY) plugin.Main always serves Plugin and serves ServiceGenerator iff it advertises the feature. (ERR-KEEP) no error value is lost: none is assigned to a variable that is never read (an inner declaration shadowing the checked one), none is overwritten by the next loop iteration unseen, and no deferred function replaces the error result without regard to the error already there. NOT decided: behaviour of real processes, exit messages, that exactly one goodbye reaches a plugin."
 	l.RuleText = "one obligation per construction site / close path / framing primitive"
 	l.Assumptions = []string{"os/exec pipes and Wait behave as documented"}
 
@@ -353,6 +353,7 @@ func checkC16(c *core.Ctx, l *core.Ledger) {
 		l.Unk("CLOSE", "main.do", "", "not found")
 	}
 	l.Floor("CLOSE", 5)
+	checkErrKeep(c, l, "ERR-KEEP", []string{"internal/plugin", "internal/process", "internal/frame", "", "plugin", "internal/envelope", "internal/multiplex"})
 
 	// ---- FRAMES
 	for _, m := range []struct{ typ, fn string }{{"Reader", "Read"}, {"Writer", "Write"}} {
